@@ -42,7 +42,8 @@ PROTOS = ("ubx", "nmea", "rtcm")
 def floors(tier):
     f = {f"pair={a}>{b}": 15 for a in PROTOS for b in PROTOS}
     f.update({"rejected>accepted": 100, "rtcm-empty>frame": 10, "ubx-len>=256": 15, "rtcm-len>=256": 10,
-              "noise": 100, "nontrivial": 300, "source=buffered": 300, "source=file": 100, "source=pipe": 100})
+              "noise": 100, "nontrivial": 300, "source=buffered": 300, "source=file": 100, "source=pipe": 100,
+              "usage=iterate-again-after-more-data": 200, "usage=second-reader-continues": 200})
     return f
 
 
@@ -56,7 +57,8 @@ OPTS = st.fixed_dictionaries({
     "parsebitfield": st.sampled_from([1, 0]),
     "quitonerror": st.sampled_from([0, 1]),
     "labelmsm": st.sampled_from([1, 1, 2]),
-    "source": st.sampled_from(S.SOURCES),
+    "source": st.sampled_from(S.SOURCES + ["rawpipe", "fileio"]),
+    "usage": st.sampled_from(["once", "once", "once", "regrow", "handover"]),
 })
 
 
@@ -68,6 +70,7 @@ def case_strategy():
 def check(case) -> core.Out:
     items, opts = case["items"], dict(case["opts"])
     source = opts.pop("source", "bytesio")
+    usage = opts.pop("usage", "once")
     S.close_sources()
     data = streams.stream_bytes(items)
     frames = [i for i in items if i["p"] != "noise"]
@@ -77,7 +80,7 @@ def check(case) -> core.Out:
         classes.append(f"pair={a['p']}>{b['p']}")
     if any(i["p"] == "noise" for i in items):
         classes.append("noise")
-    out = core.Out(classes=classes, dig=core.digest((data, source, sorted(opts.items()))))
+    out = core.Out(classes=classes, dig=core.digest((data, source, usage, sorted(opts.items()))))
     expected, verdicts = [], []
     for fr in frames:
         verdict, res = S.direct_parse(bytes(fr["b"]), opts)
@@ -101,15 +104,50 @@ def check(case) -> core.Out:
     out.sample = {"frames": [f"{i['p']}:{i['tag']}:{len(i['b'])}B" for i in items], "opts": opts,
                   "stream_head": data[:40]}
     errs = []
-    stream = S.make_source(data, source)
-    classes.append(f"source={source.split(':')[0]}")
-    try:
-        got, exc = S.read_all(stream, opts, handler=errs.append if opts["quitonerror"] == 1 else None,
-                              limit=4 * len(data) + 50)
-    except S.HarnessHang:
-        out.viol.append((f"{PROP}|hang", f"reader did not terminate on {data[:60].hex()}"))
-        return out
+    handler = errs.append if opts["quitonerror"] == 1 else None
     key = f"{PROP}|"
+    if usage == "regrow" and len(items) >= 2:
+        # the stream first ends at a frame boundary; iteration stops; more data
+        # arrives; the same reader object is iterated again (for-loop protocol)
+        classes.append("usage=iterate-again-after-more-data")
+        k = len(items) // 2
+        first = streams.stream_bytes(items[:k])
+        stream = S.TrackingStream(first)
+        try:
+            rd = S.mk_reader(stream, opts, handler)
+            got = [(r, p) for r, p in rd]
+            stream.append(data[len(first):])
+            got += [(r, p) for r, p in rd]
+            exc = None
+        except Exception as err:  # noqa
+            got, exc = [], err
+    elif usage == "handover" and len(expected) >= 2:
+        # one reader takes the first items, is dropped, and a second reader with the
+        # same options continues on the same stream object
+        import gc
+
+        classes.append("usage=second-reader-continues")
+        src = source if source != "tracking" else "rawpipe"
+        stream = S.make_source(data, src)
+        try:
+            rd = S.mk_reader(stream, opts, handler)
+            it = iter(rd)
+            got = [next(it) for _ in range(len(expected) // 2)]
+            del rd, it
+            gc.collect()
+            rd2 = S.mk_reader(stream, opts, handler)
+            got += [(r, p) for r, p in rd2]
+            exc = None
+        except Exception as err:  # noqa
+            got, exc = [], err
+    else:
+        stream = S.make_source(data, source)
+        classes.append(f"source={source.split(':')[0]}")
+        try:
+            got, exc = S.read_all(stream, opts, handler=handler, limit=4 * len(data) + 50)
+        except S.HarnessHang:
+            out.viol.append((f"{PROP}|hang", f"reader did not terminate on {data[:60].hex()}"))
+            return out
     if exc is not None:
         out.viol.append((key + f"raises:{type(exc).__name__}", f"{S.opts_label(opts)}: {exc!r}"[:300]))
         return out
